@@ -541,7 +541,9 @@ pub fn expiry_probe(ctx: &PropCtx, delays_ms: &[u64]) {
 }
 
 pub fn subs() -> Vec<Box<dyn DynSub>> {
-    vec![Box::new(Fields), Box::new(ReplayHistory), Box::new(ConcurrentReplay)]
+    let mut v: Vec<Box<dyn DynSub>> = vec![Box::new(Fields), Box::new(ReplayHistory), Box::new(ConcurrentReplay)];
+    v.extend(crate::props::c10_sys::subs());
+    v
 }
 
 pub fn run(ctx: &mut PropCtx) {
@@ -569,4 +571,5 @@ pub fn run(ctx: &mut PropCtx) {
     } else {
         expiry_probe(ctx, &[150, 1200]);
     }
+    crate::props::c10_sys::run(ctx);
 }
